@@ -429,6 +429,9 @@ func runHTTPCall(mux *larking.Mux, s PScript, callID string) PView {
 	req.Header.Set("X-Call", callID)
 	req.Header["X-Custom"] = []string{"one", "two"}
 	req.Header.Set("X-Blob-Bin", base64.RawStdEncoding.EncodeToString([]byte("\x00\xff\x10")))
+	// what HTTP/1.1 clients and intermediaries send along: hop-by-hop headers must not travel on to an HTTP/2 backend
+	req.Header.Set("Connection", "keep-alive")
+	req.Header.Set("Keep-Alive", "timeout=5")
 	req.Header.Set("Grpc-Tenant", "t1")
 	req.Header.Set("Grpc-Trace-Bin", base64.RawStdEncoding.EncodeToString([]byte("\x01\x02")))
 	w := httptest.NewRecorder()
